@@ -140,6 +140,8 @@ class Index(object):
             if kind == "batch":
                 data = {}
                 for s, ts in op[1]:
+                    if s in data:
+                        raise ValueError("unknown op kind: batch rows with the same source key %r (harness bug)" % (s,))
                     data[s] = list(ts)
                 return _report(t.index_batch_crawl(data, yield_frequency=(op[2] if len(op) > 2 else 1)))
             if kind == "create":
